@@ -87,6 +87,8 @@ EmitNext == FALSE /\ l' = l
 
 (* observation per entry:
      same        decode(encode(e)) behaves like e for every client class (fields and what Fill delivers)
+     later       decoding five seconds after encoding gives the same entry;  flips  mutated records whose two successive
+                 decodes disagree about acceptance
      stable      encoding e, then other entries, then decoding e's bytes still gives e (no aliasing)
      len         length of the encoding;  cutsErr  number of proper prefixes reported as an error
      panics      decodes (prefixes, mutations) that panicked;  hangs  that exceeded the step budget
@@ -97,6 +99,8 @@ AllocBound(len) == 65536 + 64 * len
 
 Ok(o) ==
   /\ o.same /\ o.stable
+  /\ o.later                    \* decoding later gives the same entry: the record holds absolute times
+  /\ o.flips = 0                \* decoding is a function of the bytes: the same bytes are not accepted once and rejected once
   /\ o.cutsErr = o.len          \* every proper prefix (lengths 0..len-1) is an error
   /\ o.panics = 0 /\ o.hangs = 0
   /\ o.maxAlloc <= AllocBound(o.len)
